@@ -1428,7 +1428,9 @@ impl Engine for Net {
         if part(impl_r, 0) != part(model_r, 0) {
             if faulty(&part(impl_r, 0)) || faulty(&part(model_r, 0)) {
                 v.push("C11");
-                if part(impl_r, 0).starts_with("panic") && part(model_r, 0).starts_with("panic") {
+                if (part(impl_r, 0).starts_with("panic") && part(model_r, 0).starts_with("panic"))
+                    || (part(impl_r, 0).starts_with("no-recipient") && part(model_r, 0).starts_with("no-recipient"))
+                {
                     v.push("C16");
                 }
             } else {
@@ -1696,8 +1698,11 @@ fn gen_case(rng: &mut Rng, _idx: usize, tier: Tier, focus: &str) -> Case {
         _ => {}
     }
     // ---- fault variants (C11 / C16): panic in a (sub-)model, port send to a dropped mailbox, overrunning handler
-    let fault_kind = if focus == "C11" { rng.range(1, 4) } else if focus == "C19" && rng.chance(1, 2) { 1 } else if rng.chance(1, 8) { rng.range(1, 4) } else { 0 };
-    let fault_model = rng.below(n as u64) as usize;
+    let fault_kind = if focus == "C11" { rng.range(1, 4) } else if focus == "C19" && rng.chance(1, 2) { 1 } else if focus == "C16" && rng.chance(1, 3) { rng.range(1, 2) } else if rng.chance(1, 8) { rng.range(1, 4) } else { 0 };
+    // the fault is raised, two times out of three, in a model that owns sub-models (attribution has to pick the right
+    // entry of the name table)
+    let parents: Vec<usize> = (0..n).filter(|i| parent.iter().any(|p| *p == Some(*i))).collect();
+    let fault_model = if !parents.is_empty() && rng.chance(2, 3) { *rng.pick(&parents) } else { rng.below(n as u64) as usize };
     let dead_idx = total;
     let mut fault_lines: Vec<String> = Vec::new();
     let mut fault_cmds: Vec<String> = Vec::new();
